@@ -7,7 +7,9 @@ from framework import REPO, ROOT
 
 TIE = ["Nsq.Tie.AdminAgg"]
 PROPS = ["Nsq.Props.C18"]
-STREAMS = [("getv1", "^TestVerifE7GetV1$"), ("views", "^TestVerifE7Views$"), ("malformed", "^TestVerifE7Malformed$")]
+STREAMS = [("getv1", "^TestVerifE7GetV1$"), ("latency", "^TestVerifE7Latency$"), ("less", "^TestVerifE7Less$"),
+           ("views", "^TestVerifE7Views$"),
+           ("malformed", "^TestVerifE7Malformed$")]
 
 
 # ----------------------------------------------------------------------------- op-line parser
@@ -49,12 +51,20 @@ def p_client(t):
     return {"hostname": t.s(), "id": t.s()}
 
 
+def p_e2e(tok):
+    """latency token: 0 absent/null, 1 present, p:<e>,<e>,… present with that percentiles shape (n = null element)"""
+    tok = tok.split("/j:")[0]
+    if tok.startswith("p:"):
+        return True, [None if e == "n" else int(e) for e in tok[2:].split(",") if e]
+    return tok == "1", []
+
+
 def p_chan(t):
     c = {"name": t.s()}
     for k in ("depth", "backend", "inflight", "deferred", "requeue", "timeout", "msg", "zone", "region", "global", "clientCount"):
         c[k] = t.n()
     c["paused"] = t.next() == "1"
-    c["e2e"] = t.next() == "1"
+    c["e2e"], c["pct"] = p_e2e(t.next())
     c["clients"] = t.counted(lambda: t.nullable("K", lambda: p_client(t)))
     return c
 
@@ -64,7 +74,7 @@ def p_topic(t):
     for k in ("depth", "backend", "msg", "zone", "region", "global"):
         x[k] = t.n()
     x["paused"] = t.next() == "1"
-    x["e2e"] = t.next() == "1"
+    x["e2e"], x["pct"] = p_e2e(t.next())
     x["channels"] = t.counted(lambda: t.nullable("C", lambda: p_chan(t)))
     return x
 
@@ -180,6 +190,11 @@ def expected_status(req, w):
     sel = req["a"] if kind in ("topic", "channel") else ""
     answers = [stats_of(w, p, sel) for p in prods]
     f2 = sum(1 for a in answers if a is None)
+    if not prods:
+        # the property's rule, not the code's: nobody was asked in the second stage, so nothing failed there - the view
+        # is built from what the first stage said (nothing): empty, with a warning iff some first-stage answer failed.
+        # (GetNSQDStats answers "failed to query any nsqd" for zero producers: known finding view:502-without-producers)
+        return (404, None) if kind == "channel" else (200, f1 > 0)
     if f2 == len(prods):
         return 502, None
     if kind == "channel":
@@ -216,6 +231,55 @@ def property_fails_on(op, impl):
         if int(a[1]) > 1 or int(a[2]) > 1:
             return "GETV1 sent %s plain and %s TLS requests for one fetch" % (a[1], a[2])
         return None
+    if op.startswith("less "):
+        # the comparators, recomputed here: by hostname = plain string order; by node topology = the documented rule
+        t = [("" if x == "-" else x) for x in op.split()[2:]]
+        if impl not in ("0", "1"):
+            return "comparator answer %r" % impl[:100]
+        if op.split()[1] == "host":
+            want = t[0] < t[1]
+        else:
+            a, b = t[:5], t[5:]
+            if a[0] != b[0]:
+                want = a[0] < b[0]
+            elif (a[3], a[4]) == (a[1], a[2]):
+                want = True
+            elif (b[3], b[4]) == (a[1], a[2]):
+                want = False
+            elif a[3] == a[1]:
+                want = True
+            elif b[3] == a[1]:
+                want = False
+            elif a[3] == b[3]:
+                want = a[4] < b[4]
+            else:
+                want = a[3] < b[3]
+        return None if (impl == "1") == want else "comparator %s answered %s on %s" % (op.split()[1], impl, " ".join(op.split()[2:]))
+    if op.startswith("latval "):
+        return None if impl == "marshal-ok" else ("a channel whose latency document carries the value %s: the aggregate cannot "
+                                                  "be encoded (%s) - the view answers 500" % (op.split()[1], impl[:120]))
+    if op.startswith("lat "):
+        # the latency aggregate: whatever shapes the nodes send, decoding and merging must not panic; the aggregate has
+        # no nil entry and exactly the distinct quantiles of the non-null entries (recomputed here from the op alone)
+        t = op.split()
+        docs = [p_e2e(d)[1] for d in t[3:]]
+        a = impl.split()
+        if a[0] == "panic":
+            return "latency aggregate: %s on percentiles %s" % (impl, " ".join(t[3:]) or "(none)")
+        if a[0] != "ok":
+            return "latency aggregate: unreadable answer %r" % impl[:200]
+        got = a[1] if len(a) > 1 else ""
+        if got == "nil":
+            return None if not docs else "latency aggregate missing although %d node(s) reported one" % len(docs)
+        keys = got.split(",") if got else []
+        if "n" in keys:
+            return "latency aggregate keeps a nil entry (the next Add writes to it): %s" % got
+        want = sorted({k for d in docs for k in d if k is not None})
+        if sorted(set(int(k) for k in keys)) != want:
+            return "latency aggregate has quantiles %s; the nodes reported %s" % (got or "(none)", want)
+        if t[1] == "fresh" and len(keys) != len(set(keys)):
+            return "latency aggregate lists a quantile twice: %s" % got
+        return None
     try:
         req, w = parse_op(op)
     except Exception as ex:  # malformed op line: machinery problem, not a property failure
@@ -227,6 +291,10 @@ def property_fails_on(op, impl):
     if status == 500:
         return "%s view answered 500 (a panic recovered by the router)" % req["kind"]
     exp, warn = expected_status(req, w)
+    if status == 502 and exp != 502 and req["kind"] in ("topic", "channel", "counter") and not stage1(req, w)[0]:
+        return ("%s view answered 502 although %s: no producer is known, so GetNSQDStats' `len(errs) == len(producers)` "
+                "holds with 0 == 0" % (req["kind"], "every upstream that was asked answered" if stage1(req, w)[1] == 0
+                                       else "some upstreams answered"))
     if status != exp:
         return "%s view answered %d; by the cluster contents it must be %d" % (req["kind"], status, exp)
     if status != 200:
@@ -356,8 +424,9 @@ def topic_channels_fail(req, w, prods, body):
     for e in entries:
         f = e.split("/")
         name = "" if f[0] == "-" else f[0]
-        got.setdefault(name, []).append([int(x) for x in f[2].split(",")] + [f[3] == "1"])
+        got.setdefault(name, []).append([int(x) for x in f[2].split(",")] + [f[3] == "1"] + [int(f[5]) if len(f) > 5 and f[5].isdigit() else None])
     exp = {}
+    reports = {}
     for p in prods:
         for t in stats_of(w, p, req["a"]) or []:
             if t["name"] != req["a"]:
@@ -365,6 +434,7 @@ def topic_channels_fail(req, w, prods, body):
             for c in t["channels"]:
                 if c is None:
                     continue
+                reports[c["name"]] = reports.get(c["name"], 0) + 1
                 tot = exp.setdefault(c["name"], dict((k, 0) for k, _ in CH_FIELDS))
                 tot["paused"] = tot.get("paused", False) or c["paused"]
                 for k, _ in CH_FIELDS:
@@ -383,6 +453,10 @@ def topic_channels_fail(req, w, prods, body):
                 n, dict((k, cs[dict(CH_FIELDS)[k]]) for k in bad), dict((k, tot[k]) for k in bad))
         if cs[13] != tot["paused"]:
             return "topic view, channel %r: paused=%s but the nodes report %s" % (n, cs[13], tot["paused"])
+        # the merged entry is the first reporter's own object: its node list holds the OTHER reports, nothing else
+        if cs[14] is not None and cs[14] != reports[n] - 1:
+            return "topic view, channel %r: %d node entries merged into the first report; %d node report(s) exist" % (
+                n, cs[14], reports[n])
     return None
 
 
@@ -408,6 +482,8 @@ def finding_key(site, what=""):
 def _finding_key(site):
     """The same key for a generated failure and for the committed replay of the same defect, so that an entry
     of known_findings (open or fixed) absorbs exactly its own defect."""
+    if "E2eProcessingLatencyAggregate" in site and "UnmarshalJSON" in site:
+        return "crash:null-percentile"
     if "UnmarshalJSON" in site:
         return "crash:clusterinfo.(*Producer).UnmarshalJSON"
     if "TCPAddress" in site or "HTTPAddress" in site:
@@ -487,7 +563,12 @@ def run(ctx):
         "sufficient: non-negative counters with a sum below 2^63, int64_no_wrap_sufficient). Clusters whose sums leave "
         "the range are generated on purpose and compared against the wrapped sums",
         "Go language semantics of int64 +, -, += (two's complement wrap-around) — the model's wrap64",
-        "float latency aggregates (E2eProcessingLatencyAggregate.Add) are not modelled or compared beyond the nil dereference",
+        "latency aggregates (E2eProcessingLatencyAggregate.UnmarshalJSON / Add): only the SHAPE of the percentiles array is "
+        "modelled and compared (Model/Latency, stream `latency`); the float values are not (open finding view:latency-overflow-500)",
+        "view_no_panic speaks about Fixes.all = /repo + fixes/F53 + fixes/F54; until those are committed the two defects are "
+        "open known findings replayed on every run",
+        "sort.Sort returns a sorted permutation when Less is a strict weak order (library contract; order_by_host proves the "
+        "by-hostname comparators are, order_clients_by_topology that ClientStatsByNodeTopology.Less is not)",
         "the per-node channel lists nested inside /api/topics/:t `nodes[]` are not compared (they alias the merged channel objects)",
     ]
     ctx.rule = ("correspondence: generated clusters (1-3 nsqlookupd, 1-4 nsqd, topics on some nodes only, same channel on many "
@@ -508,7 +589,7 @@ def run(ctx):
     if not ctx.build_driver("e7"):
         corr_broken.append("driver drv_e7 does not build")
         ctx.broken_ties.append("lake build drv_e7")
-    binp = ctx.go_test_binary("nsqadmin", ["e7/gate_test.go", "e7/view_test.go"], "e7view")
+    binp = ctx.go_test_binary("nsqadmin", ["e7/gate_test.go", "e7/view_test.go", "e7/latency_test.go"], "e7view")
     if not binp:
         ctx.broken_ties.append("harness e7/view_test.go does not compile against the current tree")
         corr_broken.append("harness build")
@@ -562,7 +643,8 @@ def run(ctx):
             model = mout.splitlines()
             kinds = {}
             for o, i in zip(ops, impl):
-                ctx.count_case(o, nontrivial=(i.startswith("200 ") and not i.endswith(" -")) or o.startswith("getv1"))
+                ctx.count_case(o, nontrivial=(i.startswith("200 ") and not i.endswith(" -")) or o.startswith("getv1")
+                               or o.startswith("lat") or o.startswith("less "))
                 k = o.split()[1] + ":" + i.split()[0]
                 kinds[k] = kinds.get(k, 0) + 1
             ctx.corr.setdefault("outcomes", {})[name] = kinds
@@ -577,6 +659,16 @@ def run(ctx):
                     key = "view:%s:%s" % (req_key(o), i.split()[0])
                     if o.startswith("getv1"):
                         key = "getv1:" + o.split()[2]
+                    if o.startswith("latval "):
+                        key = "view:latency-overflow-500"
+                    if o.startswith("less "):
+                        key = "order:comparator:" + o.split()[1]
+                    if o.startswith("lat "):
+                        key = "crash:null-percentile" if " panic decode " in " " + i + " " and "nil map" in i else "latency:" + i[:60]
+                    if "no producer is known" in bad:
+                        key = "view:502-without-producers"
+                    if "/j:" in o and not o.startswith("lat "):
+                        key = "view:upstream-nodes-member"
                     if key == "view:channel:500":
                         key = "view:channel-not-found"
                     elif key == "view:topic:500" and " 0 " in o:
